@@ -20,16 +20,17 @@ from common import qlit, zlit, lst, blit, coq_bad_indices, CoqError
 PROP = "C20"
 PROPERTY_FILE = "Properties/C20.v"
 GEN_DEPS = ["GenC20Params"]
-CAL_TOL = 1e-8   # |COS price - target| <= CAL_TOL * max(1, spot/100)   (brentq: xtol=2e-12, rtol=8.9e-16 on the parameter)
+CAL_TOL = 5e-10  # |COS price - target| <= CAL_TOL * max(1, spot/100)   (brentq: xtol=2e-12, rtol=8.9e-16 on the parameter; observed <= 1e-11)
+BRENT_DELTA = 1e-10   # width of the sign-changing sub-bracket among the spied trial values that must contain the returned root
 RULE = ("histories: 5 classes (HEM, Merton, VG, CGMY, BlackScholes) x N random constructor arguments x 0-12 assignments drawn from {valid value, "
         "boundary value (0, eta1=1, nu=0: where Python divides by zero), violating value, write to a cached field}; 1/3 of the cases use "
         "few-bit dyadic values for which every float operation of the derived-field formula is exact (compared with tolerance 0); the FULL "
-        "__dict__ of the objects is compared; every 4th history also prices the two models; non-trivial = history with >= 2 assignments of "
+        "__dict__ of the objects is compared; every history also prices the two models (COS, 256 terms); non-trivial = history with >= 2 assignments of "
         "which at least one is rejected or hits a cached field. calibration monitors: run_default_calibration / "
         "calibrate_model_parameter[_to_atm_call] for HEM, Merton, VG, CGMY over spot in {50,100,200}, r in {0,.02,.05}, d in {0,.01}, "
         "T in {1/12..2}, Black-Scholes vol in [0.12,0.35], start parameters perturbed around the library defaults; the sign of the "
         "objective at both ends of the interval is computed independently: sign change => must return (value in the interval, reprices "
-        "within 1e-8*max(1,spot/100), input untouched, same type, new parameter object), equal strict signs => must raise ValueError; "
+        "within 5e-10*max(1,spot/100), BrentSpec verified on the spied trial values, input untouched, same type, new parameter object), equal strict signs => must raise ValueError; "
         "1/6 of the cases are forced no-root cases, 1/7 of the generic ones use an interval reaching into refused values; the run is "
         "broken if fewer than 40 (quick) bracketed cases were calibrated")
 MODELLED = ["Parameters objects as records over Q (floats are exact rationals; rounding of / * sqrt in the derived-field formulas is "
@@ -330,8 +331,8 @@ def _history_cases(res, rng, n_per_class, viol):
                      kind="history", cls=name, args=args, ops=[list(o) for o in ops], fields=allf,
                      after_history=[float(x) for x in after], direct=[float(x) for x in want])
                 continue
-            # 'behaves identically': the models built on the two objects price alike (every 4th history)
-            if err_hist is None and it % 4 == 1:
+            # 'behaves identically': the models built on the two objects price alike (every history)
+            if err_hist is None:
                 with warnings.catch_warnings():
                     warnings.simplefilter("ignore")
                     p1, p2 = _price_like(info, obj), _price_like(info, direct)
@@ -538,13 +539,43 @@ def _calibration_monitors(res, rng, n_default, n_generic, viol):
         stats["calibrated"] += 1
         return True
 
+    import scipy.optimize
+    real_brentq = scipy.optimize.brentq
+    spied = {}
+
+    def spy_brentq(f, a, b, *args, **kw):
+        """observation only: records the trial values and objective values, then calls the real brentq"""
+        trials = []
+
+        def g(x, *aa):
+            v = f(x, *aa)
+            trials.append((float(x), float(np.squeeze(v))))
+            return v
+        spied["trials"] = trials
+        spied["root"] = None
+        root = real_brentq(g, a, b, *args, **kw)
+        spied["root"] = float(root)
+        return root
+
+    def brent_spec_holds(x):
+        """BrentSpec on the spied run: trial values x1 <= x <= x2 with x2 - x1 <= BRENT_DELTA*(1+|x|) and f(x1)*f(x2) <= 0"""
+        tr = spied.get("trials") or []
+        width = BRENT_DELTA * (1 + abs(x))
+        near = [(t, v) for t, v in tr if abs(t - x) <= width]
+        pairs = [(t1, t2, v1, v2) for t1, v1 in near for t2, v2 in near if t1 <= x <= t2 and v1 * v2 <= 0]
+        return (bool(pairs), [list(pairs[0]) if pairs else None, len(near), len(tr)])
+
     def attempt(fun):
+        spied.clear()
+        scipy.optimize.brentq = spy_brentq
         try:
             return ("value", fun())
         except ValueError as e:
             return ("ValueError", str(e))
         except Exception as e:  # noqa
             return ("other", f"{type(e).__name__}: {e}")
+        finally:
+            scipy.optimize.brentq = real_brentq
 
     mts = [ModelType.HEM, ModelType.MERTON, ModelType.VG, ModelType.CGMY]
     with warnings.catch_warnings():
@@ -578,6 +609,10 @@ def _calibration_monitors(res, rng, n_default, n_generic, viol):
             got = float(np.squeeze(COSPricer(cm).call(np.array([cm.spot]), T)))
             tol = CAL_TOL * max(1.0, model.spot / 100)
             rep.update(calibrated=float(x), interval=[a, b], target=target, cos_price=got, tol=tol)
+            okb, br = brent_spec_holds(float(x))
+            rep.update(bracket=br)
+            if not okb:
+                viol("the root finder did not keep its bracket promise (BrentSpec): no sign-changing pair of trial values of width <= 1e-10 around the returned value", **rep)
             if not (a <= x <= b):
                 viol("calibrated value outside the admissible interval", **rep)
             if not abs(got - target) <= tol:
@@ -642,10 +677,46 @@ def _calibration_monitors(res, rng, n_default, n_generic, viol):
             got = float(np.squeeze(COSPricer(type(model)(spot=model.spot, r=model.r, d=model.d, parameters=params)).price(product)))
             tol = CAL_TOL * max(1.0, model.spot / 100)
             rep.update(calibrated=float(x), cos_price=got, tol=tol)
+            okb, br = brent_spec_holds(float(x))
+            rep.update(bracket=br)
+            if not okb:
+                viol("the root finder did not keep its bracket promise (BrentSpec): no sign-changing pair of trial values of width <= 1e-10 around the returned value", **rep)
             if not (a <= x <= b):
                 viol("calibrated value outside the admissible interval", **rep)
             if not abs(got - market) <= tol:
                 viol("model with the calibrated value does not reprice the target product", **rep)
+        # intervals whose end is a value where the re-initialisation divides by zero: the calibration must raise (ZeroDivisionError
+        # propagates out of brentq; the model: assign_init = None), never return
+        for mt, par, (a, b), kw in [(ModelType.VG, "sigma", (0.0, 1.0), dict(sigma=0.1, nu=0.06, theta=0.1)),
+                                    (ModelType.VG, "nu", (0.0, 1.0), dict(sigma=0.1, nu=0.06, theta=0.1)),
+                                    (ModelType.HEM, "eta1", (1.0, 30.0), dict(sigma=0.05, p=0.6, eta1=20.0, eta2=25.0, intensity=3.0))]:
+            model = U_.helper_model(mt)(spot=100.0, r=0.02, d=0.0, **kw)
+            product = call_product(100.0, 1.0)
+            market = bs_price(model, 100.0, 1.0, 0.2)
+            snap = snapshot(model)
+            rep = dict(kind="calibrate_model_parameter", model=mt.name, params=dict(spot=100.0, r=0.02, d=0.0, **kw), parameter=par, interval=[a, b],
+                       maturity=1.0, strike=100.0, payoff="CALL", bs_sigma=0.2, market_price=market, ends="division by zero at an end")
+            res.count(("zero-div interval", mt.name, par), kind="calibrate_model_parameter division-by-zero interval")
+            out = attempt(lambda: U_.calibrate_model_parameter(model, par, (a, b), product, market))
+            res.bump("calibration_outcome", f"{mt.name}.{par}: division by zero at an end -> {out[0]} {str(out[1])[:17] if out[0] != 'value' else ''}")
+            if out[0] == "value":
+                viol("calibration returns a value although the objective cannot be evaluated at an end of the interval (division by zero)", **rep)
+            if snapshot(model) != snap:
+                viol("calibrate_model_parameter modified its input model", **rep)
+        # Black-Scholes: the calibration helpers do not support this model type (recorded finding F-C20-3, matched by exception type)
+        bsm = U_.create_exponential_of_levy_model(ModelType.BLACKSCHOLES)(spot=100.0, r=0.02, d=0.0, sigma=0.1)
+        for label, fun in (("run_default_calibration", lambda: U_.run_default_calibration(bsm, 1.0, 0.2)),
+                           ("calibrate_model_parameter_to_atm_call", lambda: U_.calibrate_model_parameter_to_atm_call(bsm, "sigma", (1e-5, 1.0), 1.0, 0.2))):
+            res.count(("bs calibration", label), kind="calibration of a Black-Scholes model")
+            out = attempt(fun)
+            res.bump("calibration_outcome", f"BLACKSCHOLES {label} -> {out[0]} {str(out[1])[:24]}")
+            if out[0] == "value":
+                x = out[1] if label != "run_default_calibration" else out[1].levy_model.parameters.sigma
+                if abs(float(x) - 0.2) > 1e-9:
+                    viol(f"{label} on a Black-Scholes model does not recover the Black-Scholes volatility", kind="bs_calibration", entry=label, got=float(x))
+            else:
+                viol(f"{label} does not support the Black-Scholes model type: raises {str(out[1]).split(':')[0]}", finding="F-C20-3",
+                     kind="bs_calibration", entry=label, exception=str(out[1]))
     return stats
 
 
@@ -681,6 +752,16 @@ def search(res):
     """a proof obligation or the correspondence broke and the first pass found no failing input: more histories, longer"""
     res.seed += 1
     _run(res, 3)
+
+
+def matches_known(v, known):
+    r = v["replay"]
+    if known["id"] == "F-C20-3":
+        exc = str(r.get("exception", ""))
+        return (r.get("kind") == "bs_calibration"
+                and ((r.get("entry") == "run_default_calibration" and exc.startswith("KeyError"))
+                     or (r.get("entry") == "calibrate_model_parameter_to_atm_call" and exc.startswith("AttributeError") and "parameters" in exc)))
+    return False
 
 
 def replay(path):
@@ -728,6 +809,18 @@ def replay(path):
             print("direct construction       :", b)
             same = (a == b) if isinstance(a, str) or isinstance(b, str) else all(_same(x, y) for x, y in zip(a, b))
             return 0 if same else 1
+        if k == "bs_calibration":
+            from rpylib.model import utils as U_
+            from rpylib.model.levymodel.levymodel import ModelType
+            bsm = U_.create_exponential_of_levy_model(ModelType.BLACKSCHOLES)(spot=100.0, r=0.02, d=0.0, sigma=0.1)
+            try:
+                out = U_.run_default_calibration(bsm, 1.0, 0.2) if data["entry"] == "run_default_calibration" else \
+                    U_.calibrate_model_parameter_to_atm_call(bsm, "sigma", (1e-5, 1.0), 1.0, 0.2)
+                print("returns", out)
+                return 0
+            except Exception as e:  # noqa
+                print(f"raises {type(e).__name__}: {e}")
+                return 1
         if k in ("default_calibration", "calibrate_model_parameter"):
             from rpylib.model import utils as U_
             from rpylib.model.levymodel.levymodel import ModelType
